@@ -51,6 +51,17 @@ def plan(tier, seed):
     for i in range(len(ps)):
         for j in range(len(ps)):
             shards.append([dict(a=i, b=j, sep=s, axis=ax, order=o) for s in seps for ax in axes for o in (0, 1)])
+    # the copy keeps the chain ids of the original (only the residue numbers differ): ligand copies in one chain etc.
+    same = [i for i, p_ in enumerate(ps) if p_['t'] in ('pair', 'cluster')]
+    shards += [[dict(a=i, b=i, sep=s_, axis='x', order=o, same=True) for s_ in (26.0, 1500.0) for o in (0, 1)] for i in same]
+    shards += [[dict(a=i, b=j, sep=80.0, axis='d', order=0, same=True)] for i in same[:6] for j in same[:6] if i != j]
+    # parts with covalently coupled systems under the parameter toggles that act on them (common charge centre, shared determinants)
+    coupled = [corpus.window_desc('3SGB', 'I', 0, 12), corpus.window_desc('1HPX', 'A', 66, 8), dict(t='ligand', name='MPO'),
+               corpus.cutout_desc('4DFR', 'A', 26, 9.0)]
+    for i in range(len(coupled)):
+        for j in range(len(coupled)):
+            shards.append([dict(a=i, b=j, sep=s_, axis='x', order=o, cfg=list(bits), lib='coupled')
+                           for bits in ((1, 0, 1), (1, 1, 1), (0, 1, 1)) for s_ in (26.0, 1001.0) for o in (0, 1)])
     return dict(shards=shards, exhaustive=True,
                 rule=('parts: %d library entries; unions of every ordered pair (A=B included) at nearest-atom separations %s A along '
                       'axes %s, B first or second in the file. non-trivial = distinct unions in which both parts carry at least one '
@@ -89,9 +100,9 @@ def place(sa, sb, sep, axis):
 _ALONE = {}
 
 
-def alone(key, s):
+def alone(key, s, opts=()):
     if key not in _ALONE:
-        m = pk.run(gen.to_text(s))
+        m = pk.run(gen.to_text(s), opts)
         _ALONE[key] = (pk.record(m), m.get_charge_profile(grid=(0., 14., 1.)),
                        m.get_folding_profile(grid=(0., 14., 1.))[0])
         if len(_ALONE) > 400:
@@ -106,17 +117,45 @@ def interesting(rec):
     return False
 
 
+COUPLED = None
+
+
+def build_part(d, seed):
+    if d['t'] == 'ligand':
+        return gen.ligand(d['name'], 'L', 1).translate(gen.seed_offset(seed))
+    return corpus.build(d, seed)
+
+
 def run_case(case, ctx, acc):
     ps = parts(ctx.tier)
+    if case.get('lib') == 'coupled':
+        ps = [corpus.window_desc('3SGB', 'I', 0, 12), corpus.window_desc('1HPX', 'A', 66, 8), dict(t='ligand', name='MPO'),
+              corpus.cutout_desc('4DFR', 'A', 26, 9.0)]
+    opts = ()
+    if case.get('cfg'):
+        import os
+        from . import c02
+        bits = tuple(case['cfg'])
+        path = os.path.abspath('c05_%d%d%d.cfg' % bits)
+        if not os.path.exists(path):
+            with open(path, 'w') as fh:
+                fh.write(c02.cfg_variants()[bits])
+        opts = ('-p', path)
     da, db = ps[case['a']], ps[case['b']]
-    sa = corpus.build(da, ctx.seed).renumber_serials()
-    sb = lower_chains(corpus.build(db, ctx.seed))
+    sa = build_part(da, ctx.seed).renumber_serials()
+    sb = build_part(db, ctx.seed)
+    if case.get('same'):
+        for a in sb.atoms:
+            a.resnum += 5000
+    else:
+        sb = lower_chains(sb)
     sb = place(sa, sb, case['sep'], case['axis']).renumber_serials(5000)
     for a in sa.atoms + sb.atoms:
         if not (-999999 <= a.x <= 9999999 and -999999 <= a.y <= 9999999 and -999999 <= a.z <= 9999999):
             raise gen.Skip('outside-coordinate-field')
-    ra, qa, fa = alone(('A', case['a']), sa)
-    rb, qb, fb = alone(('B', case['b'], case['sep'], case['axis'], case['a']), sb)
+    tag = (case.get('lib'), tuple(case.get('cfg') or ()), bool(case.get('same')))
+    ra, qa, fa = alone(('A', case['a']) + tag, sa, opts)
+    rb, qb, fb = alone(('B', case['b'], case['sep'], case['axis'], case['a']) + tag, sb, opts)
     first, second = (sa, sb) if case['order'] == 0 else (sb, sa)
     items = list(first.items)
     if not (items and isinstance(items[-1], str) and items[-1].startswith('TER')):
@@ -125,7 +164,7 @@ def run_case(case, ctx, acc):
     text = gen.to_text(items)
     inputs = dict(pdb=text)
     try:
-        mu = pk.run(text)
+        mu = pk.run(text, opts)
     except Exception as exc:
         from ..core import exc_key
         span = 'span>1000A' if case['sep'] > 990 else 'span<1000A'
@@ -137,10 +176,17 @@ def run_case(case, ctx, acc):
     nt = interesting(ra) and interesting(rb)
     acc.case(nontrivial_key=jhash(case) if nt else None, outcome='%s' % (case['sep'] > 990))
     v = []
+    def resnum_of(key):
+        num = key.split(':')[1]
+        return int(num.rstrip('ABCDEFGHIJKLMNOPQRSTUVWXYZ'))
     for tag, rp in (('A', ra), ('B', rb)):
         chains = set(g['key'].split(':')[0] for c in rp['confs'].values() for g in c['groups'])
+        if case.get('same'):
+            inpart = (lambda g, tag=tag: (resnum_of(g['key']) >= 5000) == (tag == 'B'))
+        else:
+            inpart = (lambda g, chains=chains: g['key'].split(':')[0] in chains)
         for name in rp['conformations'] + ['AVR']:
-            part_groups = [g for g in ru['confs'][name]['groups'] if g['key'].split(':')[0] in chains]
+            part_groups = [g for g in ru['confs'][name]['groups'] if inpart(g)]
             sub = dict(groups=part_groups, chains=[], nc_flag=False)
             d = cmp.diff_conf(rp['confs'][name], sub, tol=1e-9)
             if d:
